@@ -431,7 +431,7 @@ class Report:
                            all=real[:50]), open(path, "w"), indent=1, default=str)
             tail = "" if with_input else " no-failing-input-found"
             print("VIOLATION property=%s replay=%s%s" % (self.pid, path, tail))
-            for v in real[:5]:
+            for v in (with_input + [v for v in real if not v["failing_input"]])[:5]:
                 print("  [%s] %s" % (v["kind"], str(v["detail"])[:400]))
             code = 1
         with open(os.path.join(EVID, self.pid + ".json"), "w") as f:
